@@ -20,9 +20,13 @@ C(r, rq, x) == [repo |-> JRepo(r), lines |-> rq, opts |-> JOpts(x)]
 \* A: every single-line request against every repository, plain options
 \* B: every option combination on the single-line requests that can yield
 \* C: two-line requests (the second refers to the first with ^ ...) under the narrowing options
+\* (the larger universe keeps the full option product for the quick-sized part only)
+BOpts == IF Rich THEN FewOpts \ PlainOpts ELSE OptsU \ PlainOpts
+TinyRepos == IF Rich THEN {r \in SmallRepos : "arm64" \notin r.known} ELSE SmallRepos
+DOpts == IF Rich THEN {x \in FewOpts \ PlainOpts : x.stable} ELSE FewOpts \ PlainOpts
 Cases == {C(r, rq, x) : r \in Repos, rq \in Singles, x \in PlainOpts}
-         \cup {C(r, rq, x) : r \in ExRepos, rq \in Exercised(Singles), x \in OptsU \ PlainOpts}
+         \cup {C(r, rq, x) : r \in ExRepos, rq \in Exercised(Singles), x \in BOpts}
          \cup {C(r, rq, x) : r \in SmallRepos, rq \in Pairs, x \in PlainOpts}
-         \cup {C(r, rq, x) : r \in SmallRepos, rq \in Exercised(Pairs), x \in FewOpts \ PlainOpts}
+         \cup {C(r, rq, x) : r \in TinyRepos, rq \in Exercised(Pairs), x \in DOpts}
 ASSUME ndJsonSerialize(IOEnv.OUT, SetToSeq(Cases))
 =========================================================================
